@@ -13,7 +13,7 @@ from ..monitors import PadStepMonitor
 from .. import refmodels as R
 
 MANIFEST = {
-    'text': 'Held on every call executed: get_padded_extrema and interp_envelope are run on EVERY sequence of length 3..7 (quick) / 3..9 (thorough) over a 3-level alphabet x pad widths 0..5 x parabolic on/off x {peaks, troughs, abs_peaks} x {splrep, pchip, mono_pchip} x {upper, lower, combined}, plus seeded random signals with ties up to 1000 samples; detected extrema must equal an independent strict-inequality search, padding must be the documented odd reflection / edge repetition with strictly increasing locations covering both ends, and every envelope value must equal the interpolant through the returned extrema at that sample\'s integer time (1e-9 relative). Exhaustive at the stated bound, sampling beyond.',
+    'text': 'Held on every call executed: get_padded_extrema and interp_envelope are run on EVERY sequence of length 3..7 (quick) / 3..9 (thorough) over a 3-level alphabet x pad widths 0..5 x parabolic on/off x {peaks, troughs, abs_peaks} x {splrep, pchip, mono_pchip} x {upper, lower, combined}, plus seeded random signals with ties up to 1000 samples; detected extrema must equal an independent strict-inequality search, padding must be the documented odd reflection / edge repetition with strictly increasing locations covering both ends, and every envelope value must equal the interpolant through the returned extrema at that sample\'s integer time (1e-9 relative). Exhaustive at the stated bound, sampling beyond. A quarter of the shards run in a session that turns Deprecation/Future/UserWarnings into errors.',
     'note': 'Trusted: scipy splrep/splev/PchipInterpolator and np.pad (the reference deliberately uses the same primitives so a scipy upgrade cannot raise a false alarm). pad_width=0 is judged for get_padded_extrema only (interp_envelope documents a ValueError when the extrema do not span the record).',
     'technique': 'reference-model monitor on the real extrema/envelope stages, exhaustive small-scope enumeration + seeded random',
 }
